@@ -1,5 +1,6 @@
 """C05 — serialize then deserialize returns an equal instance; output is pure JSON."""
 import json
+import random
 import re
 from ..suites import serde as S
 from ..suites import extras as X
@@ -29,6 +30,7 @@ ASSUMPTIONS = [
 
 def cases(rng, tier):
     return [c for c in S.gen_cases(rng, tier, 250 if tier == "quick" else 3500) if c["mode"] == "roundtrip"] \
+        + S.anyof_optional_cases(random.Random("aopt" + str(rng.getstate()[1][0])), 60 if tier == "quick" else None) \
         + X.directed_cases() + X.gen_cases(rng, 300 if tier == "quick" else 6000)
 
 
@@ -45,12 +47,12 @@ def run_impl(case):
 
 
 def line(case, impl):
-    return None if _x(case) else S.line(case, impl)
+    return X.xline(case, impl) if _x(case) else S.line(case, impl)
 
 
 def tags(case, impl, model):
     if _x(case):
-        return ["stream:extras"] + (["extras:skipped"] if "skip" in impl else ["extras:" + k for k in impl.get("kinds", [])])
+        return ["stream:extras", "extras-model:" + ("line" if impl.get("xline") else "oracle-only")] + (["extras:skipped"] if "skip" in impl else ["extras:" + k for k in impl.get("kinds", [])])
     return S.tags(case, impl, model)
 
 
@@ -64,7 +66,7 @@ def describe(case, impl, model):
 
 def judge(case, impl, model):
     if _x(case):
-        return None, X.judge(case, impl)
+        return X.xcorrespond(case, impl, model), X.judge(case, impl)
     msg = S.correspondence(case, impl, model)
     fails = []
     if "unbuildable" in impl or "abstraction_mismatch" in impl or "ser" not in impl:
